@@ -70,7 +70,7 @@ def run(tier, seed, model_ok=True):
     res.rule = ("[a quarter of the generated scenarios also run barriers of a SECOND ygm::comm living in the same process between the epochs; its events are removed from the judged history] " +
                 "seeded scenarios (handler-side sends, handler-side local_progress, local_wait_until on flags set by peers, callbacks, masks) x layout x routing x "
                 "capacity {0,1KB,16MB} x irecvs x isends_wait x issend x eager/rendezvous x policy; plus a directed family entering a blocking collective after "
-                "un-barriered traffic; container construction / destruction scenarios of harness/dtor.cpp (shared with C02) incl. heap-allocated containers "
+                "un-barriered traffic; single RPCs of 17 MiB / 72 MB against the default receive-slot size; container construction / destruction scenarios of harness/dtor.cpp (shared with C02) incl. heap-allocated containers "
                 "re-created with a rank-dependent allocator history; distinct = (config, scenario shape) of completed runs")
     res.assumptions = ["MPI progress semantics as implemented by simmpi", "schedules sampled by seeded policies", "finite message DAGs"]
     binary, err = C.build_harness("traffic")
@@ -79,6 +79,11 @@ def run(tier, seed, model_ok=True):
         return res
     K.run_cases(res, binary, cases(tier, seed), WANT, extra=extra if model_ok else None)
     K.run_cases(res, binary, collective_cases(tier, seed), WANT, timeout=60)
+    # single RPCs far larger than the send buffer with the library's DEFAULT receive-slot size (72 MB > 64 MiB; 17 MiB with capacity
+    # 0 / 1 KB): whatever one async packs must fit a posted receive, or the receiver aborts (family shared with C01)
+    from props import c01
+    K.run_cases(res, binary, [c for c in c01.special_cases(tier, seed) if getattr(c[1], "default_irecv_size", None)], WANT, extra=None,
+                log_bytes=0, nontrivial=lambda out: out.get("asyncs", 0) > 0)
     # construction / destruction of containers (their constructors run a blocking ygm_ptr check, their destructors a barrier),
     # incl. heap-allocated containers re-created with a rank-dependent allocator history: every call must return, no assertion
     from props import c02
